@@ -14,6 +14,17 @@ CHECKS = {
             "Trusts numpy slicing; inputs outside the grid are sampled only.", "6/C16"),
 }
 
+CHECKS.update({
+    "C15": ("icontract postconditions on RVData.__init__/copy/__getitem__ over seeded hostile constructions",
+            "Exploration: thousands of seeded constructions (unsorted/duplicated times, Time scales, unit pairs, covariances, "
+            "NaN/inf placements, t_ref kinds) each judged by a contract that reconstructs the pairing from unique velocity tags.",
+            "Trusts astropy's Time scale conversion and Quantity arithmetic; inputs are sampled, not enumerated.", "6/C15"),
+    "C19": ("reference-definition oracle (longdouble) on every call of the diagnostics + metamorphic twins",
+            "Exploration: each call of max_phase_gap/phase_coverage/periods_spanned/MAP_sample on seeded observation "
+            "patterns is compared with an independently coded definition; permutation and time-reversal twins.",
+            "Bin-edge cases within 1e-7 are excluded as borderline; tolerance 1e-9 on arcs.", "6/C19"),
+})
+
 NOT_YET = {
 }
 
